@@ -18,6 +18,9 @@ def specs(tier, seed):
     for t in ('T3', 'T1'):
         S.append(sim.spec(t, schedule=R2, control=arb))
     S.append(sim.spec('T6', schedule=(('run', 3),)))
+    for t in ('T8', 'T9'):
+        S.append(sim.spec(t, schedule=(('run', 3),)))
+        S.append(sim.spec(t, schedule=(('run', 3),), control=('fixed', -0.75)))
     if tier == 'thorough':
         for t in ('T4', 'T7'):
             S.append(sim.spec(t, schedule=(('run_nc', 2), ('run', 2)), control=arb, tag=':second_window'))
@@ -37,7 +40,7 @@ def build(sp):
 JOB_CAP = {'quick': 900, 'thorough': 2400}
 REQUIRED_TRIGGERS = {'quick': ('lock.zero_duty_zero_speed', 'lock.pos_duty_nonneg_speed', 'lock.neg_duty_nonpos_speed', 'lock.clamp_is_total', 'lock.held_positions_constant', 'lock.release_needs_commanded_torque', 'lock.never_clamped_acc', 'lock.flag_matches_criterion')}
 BOUNDS = {
-    'quick': 'self-locking trains T4 (20 deg / helix 10 deg, f=0.4) and T7 (14.5 deg / helix 5 deg, f=0.3, gears after the '
+    'quick': 'two-stage worm trains T8/T9 (self-locking stage first / last, K=3, duty 1 and -0.75); self-locking trains T4 (20 deg / helix 10 deg, f=0.4) and T7 (14.5 deg / helix 5 deg, f=0.3, gears after the '
              'wheel): K=2 with an arbitrary duty cycle in [-1,1] at every instant (zeros and sign changes are models), '
              'K=4 at the default duty 1, K=3 at fixed duty 0 / 0.5 / -0.75; loads unbounded, either sign; non-self-locking T3/T6 with arbitrary duty (never clamped)',
     'thorough': 'quick + run(2)+run(2) with the arbitrary duty in the second window only + all four pressure angles with friction just below / just above the threshold, K=5, T6 arbitrary duty',
